@@ -188,14 +188,18 @@ int main(int argc, char** argv) {
     }
     if (hc_is(0, "look")) { do_look(hc_w[1], (int)hc_int(2), (int)hc_int(3), (int)hc_int(4), 0); continue; }
     if (hc_is(0, "nulltype")) {                 /* no type at all where a type is expected: refused, not dereferenced */
-      const char* names[] = { "type_instance", "type_implements", "size", "alloc", "type_method" };
-      for (int k = 0; k < 5; k++) {
+      const char* names[] = { "type_instance", "type_implements", "size", "alloc", "type_method", "class_instance", "class_implements", "class_method", "class_obj_instance" };
+      for (int k = 0; k < 9; k++) {
         hc_exc = "";
         if (k == 0) HC_TRY(type_instance(NULL, Size));
         if (k == 1) HC_TRY(type_implements(NULL, Size));
         if (k == 2) HC_TRY(size(NULL));
         if (k == 3) HC_TRY(alloc(NULL));
         if (k == 4) HC_TRY(type_method_at_offset(NULL, Size, 0, "size"));
+        if (k == 5) HC_TRY(type_instance(Float, NULL));                 /* no class at all */
+        if (k == 6) HC_TRY(type_implements(Int, NULL));
+        if (k == 7) HC_TRY(type_method_at_offset(String, NULL, 0, "member"));
+        if (k == 8) HC_TRY(instance($I(1), NULL));
         ev_begin("nulltype"); ev_str("what", names[k]); ev_str("exc", hc_exc); ev_end();
       }
       continue;
